@@ -12,36 +12,42 @@
 
   How the phrases map to the statements below.
   * "every … type"            the theorems quantify over EVERY environment `env`
-                              with `WFEnv env I` (a decidable predicate) and every
-                              type index; the environment of the tree under test
-                              is GENERATED from the live classes and
-                              `gen_env_wf` re-checks `WFEnv` on it on every run.
-  * "structurally valid value" `conforms env τ v = true` (optional elements any
-                              combination, lists any length, any alternative).
-  * "encodes … decode to an equal value"   `codec_roundtrip_partial`:
+                              with `WFEnv env I` (a decidable predicate, `I` = a
+                              first/follow table) and EVERY type index; the
+                              environment of the tree under test is GENERATED from
+                              the live classes and `gen_env_wf` re-checks `WFEnv`
+                              on it on every run (`decide +kernel`).
+  * "structurally valid value" `conforms env τ v = true` (optional elements in any
+                              combination, lists of any length, any alternative,
+                              Any = any balanced tag run).
+  * "encodes … decode to an equal value"   `codec_roundtrip`:
         `encodeTy env τ v = ok ts` for some `ts` (encoding never fails on a valid
         value) and `decodeTy env τ (ts ++ rest) = ok (v, rest)` for every `rest`
         satisfying the follow-set condition `Safe (look I τ).confus rest`
         (always true for `rest = []`, i.e. for a whole PDU, and in front of a
-        closing tag).  `pdu_roundtrip_partial`: the APCISequence wrapper with its
+        closing tag).  `pdu_roundtrip`: the APCISequence wrapper with its
         trailing-tag rejection accepts exactly that.
-  * "re-encode to identical octets"        `codec_reencode_partial`; octets are tag
-        lists through `serializeTags / parseTags` (C02: `taglist_roundtrip`),
-        composed in `codec_octets_partial`.
-  * "registered …"            `registries_total`: every registered service choice
-                              points at a sequence of the right PDU kind.
+  * "re-encode to identical octets"        `codec_reencode`; octets are tag lists
+        through `serializeTags / parseTags` (C02: `taglist_roundtrip`), composed
+        in `codec_octets`.
+  * "registered …"            `registries_total` / `registry_lookup`: every
+                              registered service choice points at a sequence of the
+                              right PDU kind; `registered_pdu_roundtrip`.
   * Annex F                   `example … := by decide +kernel` at the end — TESTS,
                               labelled as such; also run against the implementation
                               by harness/c03.py.
 
-  PARTIAL (milestone 1 of DESIGN §7 C03, said honestly): the generic proof covers
-  the types whose `Info.sup` flag is true — everything except (a) an OPTIONAL
-  structure WITHOUT context tag (decoded by try / restore: `WhoHasRequest.limits`,
-  `ReadRangeRequest.range`) and (b) the hand-written `NameValue` codec and the
-  types containing it.  On the generated environment that is 328 of 335 types
-  and 56 of 58 registered PDUs (`gen_supported_count`); the other types are
-  listed by name in the evidence and are covered by the correspondence only.
-  The full statement is `codec_roundtrip` in the comment below.
+  Strength.  `codec_roundtrip` is proved at full strength (both milestones of
+  DESIGN §7 C03): every kind of element the generic code knows — context and
+  application tagged atomics, AnyAtomic, Any, wrapped and inline structures,
+  SequenceOf / ListOf / ArrayOf with and without context, the `[]`-for-omitted
+  quirk of an optional SequenceOf, the try / restore path of an optional
+  structure without context (`WhoHasRequest.limits`, `ReadRangeRequest.range`),
+  the hand-written `NameValue` codec.  What stays outside (trusted, tied by the
+  correspondence): primitive leaves are opaque application-tag payloads
+  (`leafOK`; their meaning is C01), and the octet-level corollary assumes the
+  emitted tags are well-formed in the sense of C02 (tag number ≤ 255 — contexts
+  ≤ 254 are part of `WFEnv` — and data shorter than 2^32 octets).
 -/
 import BacVerif.Lemmas.C03Def
 import BacVerif.Gen.Schemas
@@ -97,80 +103,134 @@ theorem listStop_decode (env : Env) (fuel : Nat) (r : Ref) (j : Nat)
       · simp at hdec
       · simp at hdec; exact hdec.1.symm
 
-/-- the induction: with fuel above the index, every supported class is `Good` -/
+/-- the `DateTime` class as `NameValue` sees it -/
+theorem dateTime_ok (env : Env) (fuel dt : Nat) (hfuel : 0 < fuel)
+    (henv : env[dt]? = some (.seq [⟨.prim 10, none, false⟩, ⟨.prim 11, none, false⟩])) :
+    DateTimeOK (encodeTyF env fuel) (decodeTyF env fuel) (conformsF env fuel) dt := by
+  cases fuel with
+  | zero => omega
+  | succ f =>
+    intro v hc
+    simp only [conformsF, henv] at hc
+    have hk10 : kindOf env (.prim 10) = .prim 10 := rfl
+    have hk11 : kindOf env (.prim 11) = .prim 11 := rfl
+    cases v with
+    | seq vs =>
+      simp only [conformsDef] at hc
+      cases vs with
+      | nil => simp [conformsFields] at hc
+      | cons x vs1 =>
+        cases x with
+        | none => simp [conformsFields] at hc
+        | some x =>
+          cases vs1 with
+          | nil => simp [conformsFields] at hc
+          | cons y vs2 =>
+            cases y with
+            | none => simp [conformsFields] at hc
+            | some y =>
+              cases vs2 with
+              | cons _ _ => simp [conformsFields] at hc
+              | nil =>
+                simp only [conformsFields, conformsRef, hk10, hk11, Bool.and_true, Bool.and_eq_true] at hc
+                cases x with
+                | prim l1 d1 =>
+                  cases y with
+                  | prim l2 d2 =>
+                    simp only at hc
+                    refine ⟨l1, d1, l2, d2, rfl, ?_, ?_⟩
+                    · simp [encodeTyF, henv, encodeDef, encodeFields, encodeField, hk10, hk11,
+                        encodeLeaf, leafTag]
+                    · intro rest
+                      simp [decodeTyF, henv, decodeDef, decodeFields, decodeField, hk10, hk11, isApp,
+                        prim_app_roundtrip hc.1, prim_app_roundtrip hc.2]
+                  | _ => simp at hc
+                | _ => simp at hc
+    | _ => simp [conformsDef] at hc
+
+/-- the induction: with fuel above the index, every class of a well-formed
+    environment is `Good`, and fails fast where its table entry says so -/
 theorem good_all (env : Env) (I : Table) (hwf : WFEnv env I) :
-    ∀ fuel τ, τ < fuel → (look I τ).sup = true →
-      Good I (encodeTyF env fuel) (decodeTyF env fuel) (conformsF env fuel) τ := by
+    ∀ fuel τ, τ < fuel →
+      Good I (encodeTyF env fuel) (decodeTyF env fuel) (conformsF env fuel) τ ∧
+      (τ < env.size → FailFast I (decodeTyF env fuel) τ) := by
   intro fuel
   induction fuel with
   | zero => intro τ h; omega
   | succ fuel ih =>
-    intro τ hτ hsup v hc
-    simp only [conformsF] at hc
-    cases henv : env[τ]? with
-    | none => simp [henv] at hc
-    | some d =>
-      rw [henv] at hc
-      simp only at hc
+    intro τ hτ
+    have hg : ∀ j, j < τ → Good I (encodeTyF env fuel) (decodeTyF env fuel) (conformsF env fuel) j :=
+      fun j hj => (ih j (by omega)).1
+    refine ⟨?_, ?_⟩
+    · intro v hc
+      simp only [conformsF] at hc
+      cases henv : env[τ]? with
+      | none => simp [henv] at hc
+      | some d =>
+        rw [henv] at hc
+        simp only at hc
+        obtain ⟨hinfo, hok⟩ := wf_entry hwf henv
+        have hτs : τ < env.size := by
+          rcases Nat.lt_or_ge τ env.size with h' | h'
+          · exact h'
+          · rw [Array.getElem?_eq_none h'] at henv; simp at henv
+        have hf : ∀ j, j < τ → FailFast I (decodeTyF env fuel) j :=
+          fun j hj => (ih j (by omega)).2 (by omega)
+        have := goodDef env I (encodeTyF env fuel) (decodeTyF env fuel) (conformsF env fuel) τ d hinfo hok
+          hg hf (fun r j hk => listStop_decode env fuel r j hk)
+          (fun dt hdt henv' => dateTime_ok env fuel dt (by omega) henv') v hc
+        simpa [encodeTyF, decodeTyF, henv] using this
+    · intro hτs hffτ t r hcl hn
+      have henv : env[τ]? = some env[τ] := Array.getElem?_eq_getElem hτs
       obtain ⟨hinfo, hok⟩ := wf_entry hwf henv
-      have := goodDef env I (encodeTyF env fuel) (decodeTyF env fuel) (conformsF env fuel) τ d hinfo hok hsup
-        (fun j hj hs => ih j (by omega) hs) (fun r j hk => listStop_decode env fuel r j hk) v hc
-      simpa [encodeTyF, decodeTyF, henv] using this
+      have hf : ∀ j, j < τ → FailFast I (decodeTyF env fuel) j :=
+        fun j hj => (ih j (by omega)).2 (by omega)
+      have := failFastDef env I (decodeTyF env fuel) τ env[τ] hinfo hok hf hffτ t r hcl hn
+      simpa [decodeTyF, henv] using this
 
 /-! ## the property theorems -/
 
-/-
-  FULL STATEMENT (not yet proved in this generality — see the header):
-
-  theorem codec_roundtrip (env : Env) (I : Table) (hwf : WFEnv env I) (τ : Nat)
-      (v : Val) (hc : conforms env τ v = true) :
-      ∃ ts, encodeTy env τ v = .ok ts ∧
-        ∀ rest, Safe (look I τ).confus rest → decodeTy env τ (ts ++ rest) = .ok (v, rest)
-
-  `codec_roundtrip_partial` is this statement with the extra decidable
-  hypothesis `(look I τ).sup = true`.
--/
-
-/-- **codec_roundtrip_partial**: in every well-formed environment, for every type
-    in the supported fragment and every structurally valid value: encoding
-    succeeds, and decoding the encoding — followed by anything the follow-set
-    condition allows — returns the value and leaves exactly what followed. -/
-theorem codec_roundtrip_partial (env : Env) (I : Table) (hwf : WFEnv env I) (τ : Nat)
-    (hsup : (look I τ).sup = true) (v : Val) (hc : conforms env τ v = true) :
+/-- **codec_roundtrip** (the main theorem, full strength): in EVERY well-formed
+    environment, for EVERY type index and EVERY structurally valid value:
+    encoding succeeds, and decoding the encoding — followed by anything the
+    follow-set condition allows — returns the value and leaves exactly what
+    followed.  No bound on sizes, depths, list lengths or presence patterns. -/
+theorem codec_roundtrip (env : Env) (I : Table) (hwf : WFEnv env I) (τ : Nat)
+    (v : Val) (hc : conforms env τ v = true) :
     ∃ ts, encodeTy env τ v = .ok ts ∧
       ∀ rest, Safe (look I τ).confus rest → decodeTy env τ (ts ++ rest) = .ok (v, rest) := by
-  obtain ⟨ts, he, _, hd⟩ := good_all env I hwf (τ + 1) τ (Nat.lt_succ_self τ) hsup v hc
+  obtain ⟨ts, he, _, hd⟩ := (good_all env I hwf (τ + 1) τ (Nat.lt_succ_self τ)).1 v hc
   exact ⟨ts, he, hd⟩
 
 /-- first tag of an encoding: never a closing tag, always one the type's `first` set announces -/
-theorem codec_first_partial (env : Env) (I : Table) (hwf : WFEnv env I) (τ : Nat)
-    (hsup : (look I τ).sup = true) (v : Val) (hc : conforms env τ v = true)
+theorem codec_first (env : Env) (I : Table) (hwf : WFEnv env I) (τ : Nat)
+    (v : Val) (hc : conforms env τ v = true)
     (ts : List Tag) (he : encodeTy env τ v = .ok ts) :
     HeadOK (look I τ).first (look I τ).nullable ts := by
-  obtain ⟨ts', he', hh, _⟩ := good_all env I hwf (τ + 1) τ (Nat.lt_succ_self τ) hsup v hc
+  obtain ⟨ts', he', hh, _⟩ := (good_all env I hwf (τ + 1) τ (Nat.lt_succ_self τ)).1 v hc
   have : ts = ts' := by
     have h1 : encodeTy env τ v = .ok ts' := he'
     rw [he] at h1; simpa using h1
   subst this; exact hh
 
-/-- **pdu_roundtrip_partial**: `APCISequence.decode` (Sequence.decode, then
+/-- **pdu_roundtrip**: `APCISequence.decode` (Sequence.decode, then
     TooManyArguments if a tag is left) accepts every encoded PDU and returns the value. -/
-theorem pdu_roundtrip_partial (env : Env) (I : Table) (hwf : WFEnv env I) (τ : Nat)
-    (hsup : (look I τ).sup = true) (v : Val) (hc : conforms env τ v = true) :
+theorem pdu_roundtrip (env : Env) (I : Table) (hwf : WFEnv env I) (τ : Nat)
+    (v : Val) (hc : conforms env τ v = true) :
     ∃ ts, encodeTy env τ v = .ok ts ∧ decodePdu env τ ts = .ok v := by
-  obtain ⟨ts, he, hd⟩ := codec_roundtrip_partial env I hwf τ hsup v hc
+  obtain ⟨ts, he, hd⟩ := codec_roundtrip env I hwf τ v hc
   refine ⟨ts, he, ?_⟩
   have := hd [] (Safe.nil _)
   simp only [List.append_nil] at this
   simp [decodePdu, this]
 
-/-- **codec_reencode_partial**: what was decoded from an encoding encodes to the identical tag list
+/-- **codec_reencode**: what was decoded from an encoding encodes to the identical tag list
     (hence, through `serializeTags`, to the identical octets). -/
-theorem codec_reencode_partial (env : Env) (I : Table) (hwf : WFEnv env I) (τ : Nat)
-    (hsup : (look I τ).sup = true) (v : Val) (hc : conforms env τ v = true)
+theorem codec_reencode (env : Env) (I : Table) (hwf : WFEnv env I) (τ : Nat)
+    (v : Val) (hc : conforms env τ v = true)
     (ts : List Tag) (he : encodeTy env τ v = .ok ts) (v' : Val) (r : List Tag)
     (hd : decodeTy env τ ts = .ok (v', r)) : r = [] ∧ encodeTy env τ v' = .ok ts := by
-  obtain ⟨ts', he', hd'⟩ := codec_roundtrip_partial env I hwf τ hsup v hc
+  obtain ⟨ts', he', hd'⟩ := codec_roundtrip env I hwf τ v hc
   have : ts = ts' := by rw [he] at he'; simpa using he'
   subst this
   have := hd' [] (Safe.nil _)
@@ -180,17 +240,17 @@ theorem codec_reencode_partial (env : Env) (I : Table) (hwf : WFEnv env I) (τ :
   obtain ⟨rfl, rfl⟩ := this
   exact ⟨rfl, he⟩
 
-/-- **codec_octets_partial**: composition with C02 — the octets `TagList.encode`
+/-- **codec_octets**: composition with C02 — the octets `TagList.encode`
     produces parse back to the same tag list and decode to the value.  (Side
     condition: the emitted tags are well-formed in the sense of C02 — tag numbers
     ≤ 255, data shorter than 2^32 octets; contexts ≤ 254 are part of `WFEnv`,
     payload sizes belong to the leaves, C01.) -/
-theorem codec_octets_partial (env : Env) (I : Table) (hwf : WFEnv env I) (τ : Nat)
-    (hsup : (look I τ).sup = true) (v : Val) (hc : conforms env τ v = true) :
+theorem codec_octets (env : Env) (I : Table) (hwf : WFEnv env I) (τ : Nat)
+    (v : Val) (hc : conforms env τ v = true) :
     ∃ ts, encodeTy env τ v = .ok ts ∧
       ((∀ t ∈ ts, C02.WF t) →
         parseTags (serializeTags ts) = .ok ts ∧ decodePdu env τ ts = .ok v) := by
-  obtain ⟨ts, he, hd⟩ := pdu_roundtrip_partial env I hwf τ hsup v hc
+  obtain ⟨ts, he, hd⟩ := pdu_roundtrip env I hwf τ v hc
   exact ⟨ts, he, fun hw => ⟨C02.taglist_roundtrip ts hw, hd⟩⟩
 
 /-! ## the generated environment -/
@@ -235,13 +295,12 @@ theorem registries_total :
     registryOK Gen.Schemas.env Gen.Schemas.pduKinds .error Gen.Schemas.error = true := by
   decide +kernel
 
-/-- every registered PDU of the supported fragment round-trips through
-    `APCISequence.encode/decode` (corollary per registry) -/
-theorem registered_pdu_roundtrip_partial (reg : List (Nat × Nat)) (c τ : Nat)
-    (_hl : lookup reg c = some τ) (hsup : (look Gen.Schemas.info τ).sup = true)
-    (v : Val) (hc : conforms Gen.Schemas.env τ v = true) :
+/-- every registered PDU round-trips through `APCISequence.encode/decode`
+    (corollary per registry: confirmed, complexAck, unconfirmed, error) -/
+theorem registered_pdu_roundtrip (reg : List (Nat × Nat)) (c τ : Nat)
+    (_hl : lookup reg c = some τ) (v : Val) (hc : conforms Gen.Schemas.env τ v = true) :
     ∃ ts, encodeTy Gen.Schemas.env τ v = .ok ts ∧ decodePdu Gen.Schemas.env τ ts = .ok v :=
-  pdu_roundtrip_partial _ _ gen_env_wf τ hsup v hc
+  pdu_roundtrip _ _ gen_env_wf τ v hc
 
 /-! ## non-vacuity -/
 
@@ -257,12 +316,11 @@ def exAck : Val :=
         some (.tags [⟨.app, 4, 4, [0x42, 0x90, 0x99, 0x9a]⟩, ⟨.opening, 1, 0, []⟩,
                      ⟨.app, 2, 1, [7]⟩, ⟨.closing, 1, 0, []⟩])]
 
-example : (look info (svc complexAck 12)).sup = true ∧ conforms env (svc complexAck 12) exAck = true := by
-  decide +kernel
+example : conforms env (svc complexAck 12) exAck = true := by decide +kernel
 
 /-- the hypotheses of the theorems are met by a non-trivial instance … -/
 example : ∃ ts, encodeTy env (svc complexAck 12) exAck = .ok ts ∧ decodePdu env (svc complexAck 12) ts = .ok exAck :=
-  pdu_roundtrip_partial env info gen_env_wf _ (by decide +kernel) exAck (by decide +kernel)
+  pdu_roundtrip env info gen_env_wf _ exAck (by decide +kernel)
 
 /-- … ReadPropertyMultiple-ACK: a context-less list of structures with nested lists and a choice -/
 def exRpmAck : Val :=
@@ -275,7 +333,33 @@ def exRpmAck : Val :=
 
 example : ∃ ts, encodeTy env (svc complexAck 14) exRpmAck = .ok ts ∧
     decodePdu env (svc complexAck 14) ts = .ok exRpmAck :=
-  pdu_roundtrip_partial env info gen_env_wf _ (by decide +kernel) exRpmAck (by decide +kernel)
+  pdu_roundtrip env info gen_env_wf _ exRpmAck (by decide +kernel)
+
+/-- … the try / restore path: Who-Has without and with the optional limits structure
+    (no context tag; "omitted" is recognised by WhoHasLimits.decode raising InvalidTag) -/
+def exWhoHas1 : Val := .seq [none, some (.choice 1 (.prim 4 [0x00, 0x62, 0x6f, 0x78]))]
+def exWhoHas2 : Val :=
+  .seq [some (.seq [some (.prim 1 [3]), some (.prim 2 [1, 0])]), some (.choice 0 (.prim 4 [0, 0, 0, 7]))]
+
+example : ∃ ts, encodeTy env (svc unconfirmed 7) exWhoHas1 = .ok ts ∧
+    decodePdu env (svc unconfirmed 7) ts = .ok exWhoHas1 :=
+  pdu_roundtrip env info gen_env_wf _ exWhoHas1 (by decide +kernel)
+example : ∃ ts, encodeTy env (svc unconfirmed 7) exWhoHas2 = .ok ts ∧
+    decodePdu env (svc unconfirmed 7) ts = .ok exWhoHas2 :=
+  pdu_roundtrip env info gen_env_wf _ exWhoHas2 (by decide +kernel)
+
+/-- … and the hand-written NameValue codec inside a list: no value, a primitive
+    value, a date-time value (two application tags read through DateTime.decode) -/
+def tyNamed (n : String) : Nat := names.toList.idxOf n
+def exNameValues : Val :=
+  .list [.seq [some (.prim 2 [0, 0x61]), none],
+         .seq [some (.prim 2 [0, 0x62]), some (.atom 10 4 [124, 2, 29, 4])],
+         .seq [some (.prim 2 [0, 0x63]), some (.seq [some (.prim 4 [124, 2, 29, 4]), some (.prim 4 [12, 0, 0, 0])])],
+         .seq [some (.prim 2 [0, 0x64]), some (.atom 4 4 [0x3f, 0x80, 0, 0])]]
+
+example : ∃ ts, encodeTy env (tyNamed "SequenceOfNameValue") exNameValues = .ok ts ∧
+    decodePdu env (tyNamed "SequenceOfNameValue") ts = .ok exNameValues :=
+  pdu_roundtrip env info gen_env_wf _ exNameValues (by decide +kernel)
 
 /-- the predicate is not trivially true: an optional element that can be mistaken
     for the required one after it is refused (same context number twice) … -/
